@@ -187,3 +187,21 @@ Fixpoint msg_enc_utf8_ok (slow : bool) (S : schema) (tid : nat) (v : value) {str
 (* MarshalAppend: the encoding is appended to the caller's bytes *)
 Definition msg_marshal_append (prefix : list byte) (S : schema) (tid : nat) (v : value) : list byte :=
   prefix ++ msg_encode S tid v.
+
+(* ---------- the speculative length prefix of the reflection encoder (proto/encode.go) ----------
+   appendSpeculativeLength sets one byte aside; after the body has been appended,
+   finishSpeculativeLength grows the buffer by SizeVarint(len)-1 bytes, moves the body up
+   (copy), and writes the length in place (AppendVarint into b[:pos]). *)
+Definition msg_append_spec (b : list byte) : list byte * nat := (b ++ [x00], length b).
+
+(* in-place write of [src] at offset [pos] (the buffer is long enough) *)
+Definition msg_overwrite (b : list byte) (pos : nat) (src : list byte) : list byte :=
+  firstn pos b ++ src ++ skipn (pos + length src) b.
+
+Definition msg_finish_spec (b : list byte) (pos : nat) : list byte :=
+  let mlen := (length b - pos - 1)%nat in
+  let msiz := N.to_nat (size_varint (N.of_nat mlen)) in
+  let b1 := if Nat.eqb msiz 1 then b
+            else let ext := b ++ repeat x00 (msiz - 1) in
+                 msg_overwrite ext (pos + msiz) (firstn mlen (skipn (pos + 1) ext)) in
+  msg_overwrite b1 pos (enc_varint (N.of_nat mlen)).
